@@ -4,7 +4,8 @@
 // *synchronisation skeleton* in program order (tie A of DESIGN.md §3.3): lock / unlock operations,
 // calls to other configured methods, goroutine spawns, channel operations (a communication in a
 // `select` with a `default` branch is a non-blocking `trySend` / `tryRecv`; `x = make(chan T, n)`
-// with a literal capacity is `makeChan x n`), accesses to the guarded fields of the receiver
+// with a literal capacity is `makeChan x n`), calls of configured possibly blocking operations
+// outside the model (`blockingCall`), accesses to the guarded fields of configured types
 // (`delete(field, k)` is `del field`) and writes to captured local variables inside spawned
 // closures, with the control structure (choice / loop / return) preserved. Everything the extractor
 // does not understand inside a configured function is emitted as `Unknown "<position>"`, which makes
@@ -38,6 +39,15 @@ type typeCfg struct {
 	guarded map[string]string // guarded field -> mutex field of the same struct
 	helpers []string          // methods only analysed inlined into their callers (called with the lock held)
 	only    []string          // if non-empty: only these methods are extracted
+	// methods that are possibly blocking operations outside the model (network I/O): not extracted,
+	// every call of one is emitted as `blockingCall "Type.method"`
+	blocking []string
+}
+
+// funcCfg selects a plain (top-level) function as an entry point; its skeleton is named after it.
+type funcCfg struct {
+	pkg  string
+	name string
 }
 
 // A group is one generated Lean file: its own call table, entry list, guards and lock order.
@@ -47,6 +57,7 @@ type group struct {
 	namespace string // Lean namespace of the generated definitions
 	about     string // property the file is generated for (header comment)
 	types     []typeCfg
+	funcs     []funcCfg
 	// fixed global acquisition order of the struct mutexes (outermost first); function-local mutexes
 	// are appended behind them in order of appearance.
 	lockOrder []string
@@ -90,13 +101,28 @@ var groups = []group{
 		},
 		lockOrder: []string{"TransactionPool.mutex", "addressTransactions.mutex"}},
 
-	// C17: the request/response layer of the p2p message protocol (message_protocol.go).
-	{name: "p2p", file: "SkeletonsP2P.lean", namespace: "LiskVerif.Gen.SkeletonsP2P", about: "C17 (p2p request/response)",
+	// C17 (and the lock side of C18): the request/response layer of the p2p message protocol
+	// (message_protocol.go), the per-procedure rate limiter it calls for every received message
+	// (ratelimit.go: the methods of rateLimit, the counter struct with its own mutex, and the plain
+	// function rateLimiterHandler run as a goroutine), and what the rate limiter calls with a counter
+	// mutex held: Peer.addPenalty / banPeer -> the connection gater (own mutex, conngater.go) and
+	// Peer.Disconnect, a network operation, represented as `blockingCall "Peer.Disconnect"`.
+	// All counters share one skeleton mutex name (rpcMessageCounter.mu), whether reached through
+	// `rl.rpcMessageCounters[x].mu`, a local alias or a range variable.
+	{name: "p2p", file: "SkeletonsP2P.lean", namespace: "LiskVerif.Gen.SkeletonsP2P", about: "C17 (p2p request/response, rate limiter)",
 		types: []typeCfg{
 			{pkg: "pkg/p2p", name: "MessageProtocol", file: "message_protocol.go",
 				guarded: map[string]string{"resCh": "resMu"}},
+			{pkg: "pkg/p2p", name: "rateLimit", file: "ratelimit.go"},
+			{pkg: "pkg/p2p", name: "rpcMessageCounter", file: "ratelimit.go",
+				guarded: map[string]string{"counters": "mu"}},
+			{pkg: "pkg/p2p", name: "Peer", file: "peer.go",
+				only: []string{"addPenalty", "banPeer"}, blocking: []string{"Disconnect"}},
+			{pkg: "pkg/p2p", name: "connectionGater", file: "conngater.go",
+				guarded: map[string]string{"peerScore": "mutex", "blockedAddrs": "mutex"}},
 		},
-		lockOrder: []string{"MessageProtocol.resMu"}},
+		funcs:     []funcCfg{{pkg: "pkg/p2p", name: "rateLimiterHandler"}},
+		lockOrder: []string{"MessageProtocol.resMu", "rpcMessageCounter.mu", "connectionGater.mutex"}},
 }
 
 // ---------------------------------------------------------------------------------------------
@@ -148,6 +174,7 @@ type gen struct {
 	cfg         map[string]*typeCfg // type name -> config
 	scope       map[string]bool     // "Type.method" in scope
 	names       map[string]bool     // method names in scope
+	funcPkg     map[string]string   // plain function in scope -> its package directory
 	localMus    []string
 	localGuards [][2]string // captured variable -> the local mutex locked around its first access
 	lits        []skeleton  // function literals called synchronously (sort.Slice comparators ...)
@@ -893,6 +920,9 @@ func (c *fctx) call(x *ast.CallExpr) []action {
 		t := c.typeOf(sel.X)
 		if t.kind == "named" {
 			key := t.name + "." + name
+			if cfg, ok := c.g.cfg[t.name]; ok && cfg.pkg == t.pkg && contains(cfg.blocking, name) {
+				return append(out, action{Op: "blockingCall", Arg: key})
+			}
 			if cfg, ok := c.g.cfg[t.name]; ok && cfg.pkg == t.pkg && c.g.scope[key] {
 				return append(out, action{Op: "call", Arg: key})
 			}
@@ -903,6 +933,11 @@ func (c *fctx) call(x *ast.CallExpr) []action {
 		}
 		if c.g.names[name] {
 			out = append(out, c.unknown(x, "call of "+name+" on a receiver of unknown type"))
+		}
+	} else if id, ok := x.Fun.(*ast.Ident); ok && (id.Obj == nil || id.Obj.Kind == ast.Fun) {
+		// call of a configured plain function of the same package
+		if pkg, ok := c.g.funcPkg[id.Name]; ok && pkg == c.dir {
+			out = append(out, action{Op: "call", Arg: id.Name})
 		}
 	}
 	return out
@@ -1405,7 +1440,7 @@ func main() {
 func runGroup(repoDir string, gr *group, leanFile, jsonFile string) {
 	repo, leanOut, jsonOut := &repoDir, &leanFile, &jsonFile
 	types, lockOrder := gr.types, gr.lockOrder
-	g := &gen{repo: *repo, fset: token.NewFileSet(), pkgs: map[string]*pkgInfo{}, cfg: map[string]*typeCfg{}, scope: map[string]bool{}, names: map[string]bool{}}
+	g := &gen{repo: *repo, fset: token.NewFileSet(), pkgs: map[string]*pkgInfo{}, cfg: map[string]*typeCfg{}, scope: map[string]bool{}, names: map[string]bool{}, funcPkg: map[string]string{}}
 	for i := range types {
 		t := &types[i]
 		if _, dup := g.cfg[t.name]; dup {
@@ -1416,8 +1451,9 @@ func runGroup(repoDir string, gr *group, leanFile, jsonFile string) {
 	}
 	// scope: every selected method of every configured type
 	type item struct {
-		cfg *typeCfg
+		cfg *typeCfg // nil for a plain function
 		fd  *ast.FuncDecl
+		pkg string
 	}
 	var items []item
 	for i := range types {
@@ -1444,7 +1480,10 @@ func runGroup(repoDir string, gr *group, leanFile, jsonFile string) {
 			if len(t.only) > 0 && !contains(t.only, fd.Name.Name) {
 				continue
 			}
-			sel = append(sel, item{t, fd})
+			if contains(t.blocking, fd.Name.Name) {
+				continue
+			}
+			sel = append(sel, item{t, fd, t.pkg})
 		}
 		sort.Slice(sel, func(a, b int) bool { return sel[a].fd.Pos() < sel[b].fd.Pos() })
 		for _, it := range sel {
@@ -1463,13 +1502,38 @@ func runGroup(repoDir string, gr *group, leanFile, jsonFile string) {
 				os.Exit(1)
 			}
 		}
+		for _, b := range t.blocking {
+			if _, ok := p.methods[t.name+"."+b]; !ok {
+				fmt.Fprintf(os.Stderr, "skelgen: configured blocking method %s.%s not found\n", t.name, b)
+				os.Exit(1)
+			}
+		}
 		items = append(items, sel...)
+	}
+	for _, f := range gr.funcs {
+		p := g.loadPkg(f.pkg)
+		fd, ok := p.funcs[f.name]
+		if !ok {
+			fmt.Fprintf(os.Stderr, "skelgen: configured function %s not found in %s\n", f.name, f.pkg)
+			os.Exit(1)
+		}
+		if g.scope[f.name] {
+			fmt.Fprintln(os.Stderr, "skelgen: duplicate function name", f.name)
+			os.Exit(1)
+		}
+		g.scope[f.name] = true
+		g.funcPkg[f.name] = f.pkg
+		items = append(items, item{nil, fd, f.pkg})
 	}
 	var skels []skeleton
 	for _, it := range items {
-		p := g.loadPkg(it.cfg.pkg)
-		name := it.cfg.name + "." + it.fd.Name.Name
-		c := &fctx{g: g, dir: it.cfg.pkg, file: p.fileOf[it.fd], fd: it.fd, fname: name, tname: it.cfg.name}
+		p := g.loadPkg(it.pkg)
+		name, tname, entry := it.fd.Name.Name, "", true
+		if it.cfg != nil {
+			name, tname = it.cfg.name+"."+it.fd.Name.Name, it.cfg.name
+			entry = !contains(it.cfg.helpers, it.fd.Name.Name)
+		}
+		c := &fctx{g: g, dir: it.pkg, file: p.fileOf[it.fd], fd: it.fd, fname: name, tname: tname}
 		var body []action
 		if it.fd.Body == nil {
 			body = []action{c.unknown(it.fd, "function without body")}
@@ -1480,7 +1544,7 @@ func runGroup(repoDir string, gr *group, leanFile, jsonFile string) {
 		pos := g.fset.Position(it.fd.Pos())
 		rel, _ := filepath.Rel(g.repo, pos.Filename)
 		skels = append(skels, skeleton{Name: name, Lean: leanIdent(name), File: rel, Line: pos.Line,
-			Entry: !contains(it.cfg.helpers, it.fd.Name.Name), Body: body, Unkown: countUnknown(body)})
+			Entry: entry, Body: body, Unkown: countUnknown(body)})
 		skels = append(skels, g.lits...)
 		g.lits = nil
 	}
